@@ -247,7 +247,8 @@ static bool enum_c03() {
       }
     }
     // compile-time spellings (literal sites 0..9 on f, 10/11 on g, 12 on v)
-    for (int lit = 0; lit < NLITFORM; ++lit) {
+    for (int lit = 0; lit < NLITALL + NLITNAMEDV; ++lit) {
+      if (lit >= NLITFORM && lit < NLITALL) continue;   // scoped forms have no NAMED handle
       const LitForm& f = lit_forms()[lit];
       long top = (f.hi == INF ? f.lo : f.hi) + 3;
       int arg = f.m0.kind == M_VALUE || f.m0.kind == M_EQ ? f.m0.val : f.m0.kind == M_LT ? 1 : f.m0.kind == M_GE ? 3 : f.m0.kind == M_NE ? 2 : f.with0 == W_GT2 ? 4 : 1;
